@@ -76,6 +76,8 @@ type c12Pipe struct {
 	Batches                 []int
 	Extract, Transforms     []c12Tx
 	Outs                    []c12Out
+	// kind 5 (not encoded): the first transformation is  parseTime key: time  (c12_xfstate.go)
+	ParseTime bool
 }
 
 func b2i(b bool) int64 {
@@ -266,7 +268,7 @@ func (r *zrd) prog() []c12Tx {
 
 func c12DecodePipe(c *Case) (*c12Pipe, error) {
 	r := &zrd{z: c.Z}
-	pc := &c12Pipe{}
+	pc := &c12Pipe{ParseTime: c.Kind == 5}
 	nl, nr := r.n(), r.n()
 	pc.NOut, pc.MinPool, pc.MaxMsg, pc.MaxRec = r.n(), r.n(), r.n(), r.n()
 	pc.LevelMap = r.next() != 0
@@ -455,10 +457,13 @@ func (pc *c12Pipe) yaml(outs []int) string {
 	sb.WriteString("]\n    extractions:\n")
 	pc.progYAML(pc.Extract, "      ", &sb)
 	sb.WriteString("orchestration:\n  type: byKeySet\n  keys: [app]\n  tag: t.$app\nmetricKeys: [pid]\n")
-	if len(pc.Transforms) == 0 {
+	if len(pc.Transforms) == 0 && !pc.ParseTime {
 		sb.WriteString("transformations: []\n")
 	} else {
 		sb.WriteString("transformations:\n")
+		if pc.ParseTime {
+			sb.WriteString("  - type: parseTime\n    key: time\n    errorLabel: timeError\n")
+		}
 		pc.progYAML(pc.Transforms, "  ", &sb)
 	}
 	sb.WriteString("outputBufferPairs:\n")
@@ -786,10 +791,14 @@ func c12Build(yaml string, nOut int) (*c12Pipeline, error) {
 }
 
 func c12SetKnobs(pc *c12Pipe) func() {
-	a, b, c := defs.InputLogMinRecordBytesToPool, defs.InputLogMaxMessageBytes, defs.InputLogMaxRecordBytes
+	a, b, c, d := defs.InputLogMinRecordBytesToPool, defs.InputLogMaxMessageBytes, defs.InputLogMaxRecordBytes, defs.IntermediateFlushInterval
 	defs.InputLogMinRecordBytesToPool, defs.InputLogMaxMessageBytes, defs.InputLogMaxRecordBytes = pc.MinPool, pc.MaxMsg, pc.MaxRec
+	// The worker's timer cuts a chunk when a second has passed since the last one: on a loaded machine a case can take
+	// longer than that, and the chunk-content check would see a chunk boundary in the middle of the stream. Chunks are
+	// cut by size and at the end only.
+	defs.IntermediateFlushInterval = 1000 * time.Hour
 	return func() {
-		defs.InputLogMinRecordBytesToPool, defs.InputLogMaxMessageBytes, defs.InputLogMaxRecordBytes = a, b, c
+		defs.InputLogMinRecordBytesToPool, defs.InputLogMaxMessageBytes, defs.InputLogMaxRecordBytes, defs.IntermediateFlushInterval = a, b, c, d
 	}
 }
 
@@ -950,6 +959,9 @@ func c12RunPipeline(c *Case) (out string, fails []Fail) {
 	}
 	logger.SetLogLevel(logger.FatalLevel)
 	defer c12SetKnobs(pc)()
+	if pc.ParseTime {
+		time.Local = time.UTC // the model takes the offset of time.Local (timestamps without zone) as 0
+	}
 	if pc.GC == 0 {
 		oldGC := debug.SetGCPercent(-1)
 		defer debug.SetGCPercent(oldGC)
@@ -973,6 +985,9 @@ func c12RunPipeline(c *Case) (out string, fails []Fail) {
 		texts[i] = o.text(pc.NOut)
 	}
 	out = "pl:" + strings.Join(texts, ";")
+	if pc.ParseTime {
+		out = "pt:" + strings.Join(texts, ";")
+	}
 
 	// ----- the property's own oracle: each record alone on a fresh pipeline gives the same result -----
 	ctx := pc.describe()
@@ -1048,7 +1063,22 @@ func c12RunPipeline(c *Case) (out string, fails []Fail) {
 				want = append(want, lo.outs[k].stream...)
 			}
 		}
+		inOrder := true
 		if len(want) > 0 && !bytes.Contains(long.chunks[k], want) {
+			// a chunk cut by size puts chunk framing between two streams: every stream must still be there, in order
+			pos := 0
+			for _, lo := range long.recs {
+				if k < len(lo.outs) {
+					j := bytes.Index(long.chunks[k][pos:], lo.outs[k].stream)
+					if j < 0 {
+						inOrder = false
+						break
+					}
+					pos += j + len(lo.outs[k].stream)
+				}
+			}
+		}
+		if !inOrder {
 			fails = append(fails, Fail{"c12:chunk-content", fmt.Sprintf("the chunks of output %d do not contain the serialized records as they were produced: %s", k, ctx)})
 		}
 	}
